@@ -2,6 +2,7 @@
 from .. import scriptprop
 
 ID = "C14"
+GEN = ["SlicesShapes.lean", "MapsShapes.lean"]   # regenerated from the source on every run (tie 4B): kernels / call shapes / function shapes
 RULE = ("calls of every helper on lists of length 0..12 over small universes (duplicates), callbacks from the shared position-sensitive family "
         "(acc(s,v)=31s+v+1, v mod m = r, v mod m, equality mod m, converter failing at position j); inputs re-observed after the call and after mutating the result; "
         "the equals family includes a non-symmetric member (a is half of b); non-trivial = list of length >= 2")
